@@ -132,6 +132,23 @@ F4S ==  { SelX(From2, <<It(AggE(f, C2, d), "X")>>, w) : f \in {"count", "min", "
    \cup { [SelX(From2, <<It(C2, "C"), It(CountStar, "N"), It(AggE("sum", A1, FALSE), "S")>>, NoExpr) EXCEPT !.group = <<C2>>] }
    \cup { [SelX(From2, <<It(C2, "C")>>, NoExpr) EXCEPT !.distinct = TRUE], SelX(From2, <<It(CountStar, "N"), It(AggE("min", C2, FALSE), "MI"), It(AggE("max", A1, FALSE), "MA")>>, NoExpr) }
 
+\* F4M: several aggregating blocks inside ONE statement that spell the same aggregate (branches of a set operation, an aggregate
+\* over an aggregating derived table, an aggregating CTE): each block aggregates its own rows - whatever an implementation
+\* remembers about "SUM(A)" or "COUNT(*)" while it evaluates one block says nothing about the next
+SumA(f, w) == SelX(f, <<It(AggE("sum", A1, FALSE), "X")>>, w)
+CntS(f, w) == SelX(f, <<It(CountStar, "N")>>, w)
+GrpA(f)    == [SelX(f, <<It(A1, "A"), It(CountStar, "N"), It(AggE("max", A1, FALSE), "M")>>, NoExpr) EXCEPT !.group = <<A1>>]
+F4M ==  { SetOp("union", TRUE, SumA(From1, NoExpr), SumA(From2, NoExpr)), SetOp("union", TRUE, SumA(From2, NoExpr), SumA(From1, NoExpr)),
+          SetOp("union", TRUE, CntS(From1, NoExpr), CntS(From2, NoExpr)), SetOp("union", TRUE, CntS(From1, CmpE("=", A1, L(0))), CntS(From1, CmpE(">", A1, L(0)))),
+          SetOp("union", TRUE, GrpA(From1), GrpA(From2)), SetOp("except", TRUE, GrpA(From1), GrpA(From2)),
+          SetOp("union", FALSE, SumA(From1, NoExpr), SumA(From2, NoExpr)) }
+   \cup { SelX(Derived(GrpA(From1), "D"), <<It(CountStar, "N")>>, NoExpr),
+          SelX(Derived(GrpA(From1), "D"), <<It(CountStar, "N"), It(AggE("max", Col("A"), FALSE), "M"), It(AggE("sum", QCol("D", "N"), FALSE), "S")>>, NoExpr),
+          [SelX(Derived(GrpA(From1), "D"), <<It(QCol("D", "N"), "K"), It(CountStar, "N")>>, NoExpr) EXCEPT !.group = <<QCol("D", "N")>>] }
+   \cup { [SelX(TableRef("W"), <<It(CountStar, "N")>>, NoExpr) EXCEPT !.with = <<[n |-> "W", q |-> GrpA(From1), cols |-> <<>>]>>],
+          [SelX(TableRef("W"), <<It(CountStar, "N"), It(AggE("max", Col("A"), FALSE), "M")>>, CmpE(">", Col("N"), L(0)))
+              EXCEPT !.with = <<[n |-> "W", q |-> GrpA(From1), cols |-> <<>>]>>] }
+
 \* F5: DISTINCT / ORDER BY / LIMIT / OFFSET
 Orders == { <<OrdE(A1, d)>> : d \in {"asc", "desc"} } \cup { <<OrdE(B1, "asc")>>, <<OrdE(A1, "asc"), OrdE(B1, "desc")>>, <<OrdE(A1, "desc"), OrdE(B1, "asc")>>,
             <<OrdPos(1, "asc")>>, <<OrdPos(2, "desc"), OrdPos(1, "asc")>>, <<OrdE(ArE("+", A1, B1), "asc")>>, <<OrdE(ArE("+", A1, B1), "desc"), OrdE(A1, "asc")>> }
@@ -190,7 +207,19 @@ Rw3 == { SelX(From1, SemiOut, ExistsE(SelX(From2, <<It(L(1), "X")>>, CmpE("=", T
 \* NOT IN keeps its own NULL semantics: equal to NOT EXISTS only when neither side has NULLs (RwNotIn)
 NotInQ == SelX(From1, SemiOut, InSubE(T1A, SelX(From2, <<It(T2A, "A")>>, NoExpr), TRUE))
 NotExQ == SelX(From1, SemiOut, ExistsE(SelX(From2, <<It(L(1), "X")>>, CmpE("=", T2A, T1A)), TRUE))
-RwGroups == { Rw1(c) : c \in {CmpE("=", T1A, T2A), AndE(CmpE("=", T1A, T2A), CmpE("=", T1B, L(0))), CmpE("<", T1A, T2A)} } \cup {Rw2, Rw3}
+\* semi / anti joins whose correlation is an equality plus a conjunct that reads OUTER columns only inside BETWEEN bounds or an
+\* IN list (the inner column stands alone on the left): per outer ROW, not per outer key - two outer rows with the same key
+\* and different bounds must be able to get different answers
+ExQ(c, n) == SelX(From1, SemiOut, ExistsE(SelX(From2, <<It(L(1), "X")>>, c), n))
+ResBetween == AndE(CmpE("=", T2A, T1A), BetweenE(T2A, T1B, T1A, FALSE))
+ResPlain   == AndE(CmpE("=", T2A, T1A), AndE(CmpE("<=", T1B, T2A), CmpE("<=", T2A, T1A)))
+ResInList  == AndE(CmpE("=", T2A, T1A), InListE(T2A, <<T1B, L(5)>>, FALSE))
+ResInPlain == AndE(CmpE("=", T2A, T1A), OrE(CmpE("=", T2A, T1B), CmpE("=", T2A, L(5))))
+Rw4 == { ExQ(ResBetween, FALSE), ExQ(ResPlain, FALSE) }
+Rw5 == { ExQ(ResBetween, TRUE), ExQ(ResPlain, TRUE), SelX(From1, SemiOut, NotE(ExistsE(SelX(From2, <<It(L(1), "X")>>, ResBetween), FALSE))) }
+Rw6 == { ExQ(ResInList, FALSE), ExQ(ResInPlain, FALSE) }
+Rw7 == { ExQ(ResInList, TRUE), ExQ(ResInPlain, TRUE) }
+RwGroups == { Rw1(c) : c \in {CmpE("=", T1A, T2A), AndE(CmpE("=", T1A, T2A), CmpE("=", T1B, L(0))), CmpE("<", T1A, T2A)} } \cup {Rw2, Rw3, Rw4, Rw5, Rw6, Rw7}
 F8 == UNION RwGroups \cup {NotInQ, NotExQ}
 
 \* C32: views and CTEs: the same defining query used as a view (V1, created in Setup2), a CTE and a derived table
@@ -209,10 +238,10 @@ F9Der(i)  == OuterOn(Derived(RenamedDef(i), "W"), OutCols(i)[1], OutCols(i)[2])
 F9 == UNION { F9View(i) \cup F9Cte(i) \cup F9Der(i) : i \in 1..3 }
 Setup9 == [i \in 1..3 |-> [a |-> "cv", n |-> ViewNames9[i], q |-> ViewDefs[i], cols |-> ViewCols[i]]]
 
-Queries == CASE Family = "F1" -> F1 [] Family = "F1L" -> F1L [] Family = "F4S" -> F4S [] Family = "F5S" -> F5S [] Family = "F1C" -> F1C [] Family = "F2" -> F2 [] Family = "F3" -> F3 [] Family = "F4" -> F4
+Queries == CASE Family = "F1" -> F1 [] Family = "F1L" -> F1L [] Family = "F4S" -> F4S [] Family = "F5S" -> F5S [] Family = "F1C" -> F1C [] Family = "F2" -> F2 [] Family = "F3" -> F3 [] Family = "F4" -> F4 [] Family = "F4M" -> F4M
              [] Family = "F5" -> F5 [] Family = "F6" -> F6 [] Family = "F7" -> F7 [] Family = "F8" -> F8 [] Family = "F9" -> F9
 UsesT1 == Family \notin {"F1L", "F4S", "F5S"}
-UsesT2 == Family \in {"F1L", "F4S", "F5S", "F3", "F6", "F7", "F8", "F9"}
+UsesT2 == Family \in {"F1L", "F4S", "F5S", "F3", "F4M", "F6", "F7", "F8", "F9"}
 FullSetup == IF Family = "F9" THEN Setup \o Setup9 ELSE Setup
 
 \* ---------- the state machine ----------
